@@ -82,15 +82,28 @@ fn both_digest(a: Option<u8>, b: Option<u8>, z1: Option<u8>, z2: Option<u8>) -> 
   d(a) + 4 * d(b) + 16 * d(z1) + 64 * d(z2)
 }
 
-pub const NFAM: u8 = 10;
+/// A key type that is both a task and a resource: task TR(i) reads resource TR(i) (same type, same value).
+#[derive(Clone, Copy, PartialEq, Eq, Hash)]
+pub struct TR(pub u8);
+impl std::fmt::Debug for TR { fn fmt(&self, f: &mut std::fmt::Formatter<'_>) -> std::fmt::Result { write!(f, "K({})", self.0) } }
+impl MapKey for TR { type Value = u8; }
+impl Task for TR {
+  type Output = (u8, u8, Option<u8>);
+  fn execute<C: Context>(&self, ctx: &mut C) -> Self::Output {
+    let v = ctx.read(&TR(self.0), MapEqualsChecker).ok().and_then(|r| r.copied());
+    (5, self.0, v)
+  }
+}
+
+pub const NFAM: u8 = 11;
 
 /// 0 = A, 1 = B, 2 = Box<A>, 3 = Rc<A>, 4 = Arc<A>, 5 = Box<B>, 6 = Z1, 7 = Z2, 8 = Box<Z1> (zero-sized: id is always 0),
-/// 9 = Both (reads RA(id), RB(id), RZ1, RZ2 back to back)
+/// 9 = Both (reads RA(id), RB(id), RZ1, RZ2 back to back), 10 = TR (a type that is task and resource at once)
 #[derive(Clone, Copy, Debug, Serialize, Deserialize, PartialEq, Eq, Hash, PartialOrd, Ord)]
 pub struct Spec { pub fam: u8, pub id: u8 }
 
 impl Spec {
-  fn base(&self) -> u8 { match self.fam % NFAM { 1 | 5 => 1, 6 | 8 => 2, 7 => 3, 9 => 4, _ => 0 } }
+  fn base(&self) -> u8 { match self.fam % NFAM { 1 | 5 => 1, 6 | 8 => 2, 7 => 3, 9 => 4, 10 => 5, _ => 0 } }
   fn canon(&self) -> Spec { let fam = self.fam % NFAM; Spec { fam, id: if (6..=8).contains(&fam) { 0 } else { self.id } } }
 }
 
@@ -109,7 +122,8 @@ impl Task for Root {
       6 => ctx.require(&Z1, EqualsChecker),
       7 => ctx.require(&Z2, EqualsChecker),
       8 => ctx.require(&Box::new(Z1), EqualsChecker),
-      _ => ctx.require(&Both(s.id), EqualsChecker),
+      9 => ctx.require(&Both(s.id), EqualsChecker),
+      _ => ctx.require(&TR(s.id), EqualsChecker),
     }).collect()
   }
 }
@@ -128,6 +142,7 @@ fn spec_of(k: &dyn KeyObj) -> Option<Spec> {
   if a.downcast_ref::<Z2>().is_some() { return Some(Spec { fam: 7, id: 0 }); }
   if a.downcast_ref::<Box<Z1>>().is_some() { return Some(Spec { fam: 8, id: 0 }); }
   if let Some(x) = a.downcast_ref::<Both>() { return Some(Spec { fam: 9, id: x.0 }); }
+  if let Some(x) = a.downcast_ref::<TR>() { return Some(Spec { fam: 10, id: x.0 }); }
   None
 }
 
@@ -137,13 +152,13 @@ impl Tracker for ExecTracker {
 }
 
 #[derive(Clone, Debug, Serialize, Deserialize, PartialEq, Eq, Hash)]
-pub enum IStep { Session, BottomUp, ChangeA { id: u8, val: Option<u8> }, ChangeB { id: u8, val: Option<u8> }, ChangeZ { which: u8, val: Option<u8> } }
+pub enum IStep { Session, BottomUp, ChangeT { id: u8, val: Option<u8> }, ChangeA { id: u8, val: Option<u8> }, ChangeB { id: u8, val: Option<u8> }, ChangeZ { which: u8, val: Option<u8> } }
 
 #[derive(Clone, Debug, Serialize, Deserialize, PartialEq, Eq, Hash)]
 pub struct ICase { pub specs: Vec<Spec>, pub steps: Vec<IStep> }
 
 fn key_obj(s: &Spec) -> Box<dyn KeyObj> {
-  match s.fam % NFAM { 0 => Box::new(A(s.id)), 1 => Box::new(B(s.id)), 2 => Box::new(Box::new(A(s.id))), 3 => Box::new(Rc::new(A(s.id))), 4 => Box::new(Arc::new(A(s.id))), 5 => Box::new(Box::new(B(s.id))), 6 => Box::new(Z1), 7 => Box::new(Z2), 8 => Box::new(Box::new(Z1)), _ => Box::new(Both(s.id)) }
+  match s.fam % NFAM { 0 => Box::new(A(s.id)), 1 => Box::new(B(s.id)), 2 => Box::new(Box::new(A(s.id))), 3 => Box::new(Rc::new(A(s.id))), 4 => Box::new(Arc::new(A(s.id))), 5 => Box::new(Box::new(B(s.id))), 6 => Box::new(Z1), 7 => Box::new(Z2), 8 => Box::new(Box::new(Z1)), 9 => Box::new(Both(s.id)), _ => Box::new(TR(s.id)) }
 }
 fn hash_of(k: &dyn KeyObj) -> u64 { let mut h = DefaultHasher::new(); k.hash(&mut h); h.finish() }
 
@@ -175,6 +190,7 @@ pub fn check(case: &ICase, stats: &mut Stats) -> CheckResult {
   let mut ra: BTreeMap<u8, u8> = BTreeMap::new();
   let mut rb: BTreeMap<u8, u8> = BTreeMap::new();
   let mut rz: [Option<u8>; 2] = [None, None];
+  let mut rt: BTreeMap<u8, u8> = BTreeMap::new();
   // resources changed since the last build: (type 0 RA / 1 RB / 2 RZ1 / 3 RZ2, id)
   let mut changed: Vec<(u8, u8)> = vec![];
   // what each distinct key saw at its last execution
@@ -192,6 +208,11 @@ pub fn check(case: &ICase, stats: &mut Stats) -> CheckResult {
         // The other resource type must not see it.
         let other = pie.resource_state_mut::<RB>().get_global_map_mut().get(&RB(*id)).copied();
         if other != rb.get(id).copied() { return Err(Failure::new(format!("step {}: changing resource RA({}) changed what RB({}) holds: {:?}", i, id, id, other))); }
+      }
+      IStep::ChangeT { id, val } => {
+        if !changed.contains(&(4, *id)) { changed.push((4, *id)); }
+        let m = pie.resource_state_mut::<TR>().get_global_map_mut();
+        match val { Some(v) => { m.insert(TR(*id), *v); rt.insert(*id, *v); } None => { m.remove(&TR(*id)); rt.remove(id); } }
       }
       IStep::ChangeB { id, val } => {
         if !changed.contains(&(1, *id)) { changed.push((1, *id)); }
@@ -218,7 +239,7 @@ pub fn check(case: &ICase, stats: &mut Stats) -> CheckResult {
             stats.class("bottom_up_step");
             let mut bu = session.create_bottom_up_build();
             for (ty, id) in &changed {
-              match ty { 0 => bu.schedule_tasks_affected_by(&RA(*id)), 1 => bu.schedule_tasks_affected_by(&RB(*id)), 2 => bu.schedule_tasks_affected_by(&RZ1), _ => bu.schedule_tasks_affected_by(&RZ2) }
+              match ty { 0 => bu.schedule_tasks_affected_by(&RA(*id)), 1 => bu.schedule_tasks_affected_by(&RB(*id)), 2 => bu.schedule_tasks_affected_by(&RZ1), 3 => bu.schedule_tasks_affected_by(&RZ2), _ => bu.schedule_tasks_affected_by(&TR(*id)) }
             }
             bu.update_affected_tasks();
           }
@@ -228,7 +249,7 @@ pub fn check(case: &ICase, stats: &mut Stats) -> CheckResult {
         let mut execs = EXECS.with(|e| e.borrow().clone());
         execs.sort();
         // Expected: each distinct key executes iff never executed or its own resource changed since.
-        let cur = |s: &Spec| -> Option<u8> { match s.base() { 0 => ra.get(&s.id).copied(), 1 => rb.get(&s.id).copied(), 2 => rz[0], 3 => rz[1], _ => Some(both_digest(ra.get(&s.id).copied(), rb.get(&s.id).copied(), rz[0], rz[1])) } };
+        let cur = |s: &Spec| -> Option<u8> { match s.base() { 0 => ra.get(&s.id).copied(), 1 => rb.get(&s.id).copied(), 2 => rz[0], 3 => rz[1], 5 => rt.get(&s.id).copied(), _ => Some(both_digest(ra.get(&s.id).copied(), rb.get(&s.id).copied(), rz[0], rz[1])) } };
         let mut want_exec: Vec<Spec> = vec![];
         // The root validates its requires in order and stops at the first inconsistent one; keys after that are
         // re-required by the re-executing root. Either way every distinct key is made consistent exactly once.
@@ -268,6 +289,7 @@ fn istep() -> impl Strategy<Value=IStep> {
     2 => (0u8..3, proptest::option::of(0u8..3)).prop_map(|(id, val)| IStep::ChangeA { id, val }),
     2 => (0u8..3, proptest::option::of(0u8..3)).prop_map(|(id, val)| IStep::ChangeB { id, val }),
     2 => (0u8..2, proptest::option::of(0u8..3)).prop_map(|(which, val)| IStep::ChangeZ { which, val }),
+    2 => (0u8..3, proptest::option::of(0u8..3)).prop_map(|(id, val)| IStep::ChangeT { id, val }),
   ]
 }
 pub fn strategy() -> impl Strategy<Value=ICase> {
@@ -280,7 +302,7 @@ pub fn replay(path: &Path) -> Result<CheckResult, String> {
 }
 
 pub fn run(tier: Tier, seed: u64) -> i32 {
-  let rule = "proptest-generated key lists drawn from nine task types with identical representation, hash and Debug text (newtypes A(u8), B(u8), Box<A>, Rc<A>, Arc<A>, Box<B>, and the zero-sized unit structs Z1, Z2, Box<Z1>, whose boxes even share an address) and four resource types RA(u8)/RB(u8)/RZ1/RZ2 with colliding ids, plus a task that reads RA(i), RB(i), RZ1, RZ2 back to back, x histories of top-down sessions, bottom-up builds (all changed resources reported) and changes to RA(i)/RB(i)/RZ1/RZ2; oracle: dyn KeyObj equality holds iff same concrete type and equal value, equal keys hash equally (all pairs of separately constructed keys); inside a Pie instance a root task requires the listed keys: every distinct (type, value) executes exactly once when new or when its own resource changed, never because a same-bytes key of another type changed, and every key gets its own output; changing RA(i) never changes RB(i); non-trivial = case with two keys of equal bytes and different types; distinct by case hash";
+  let rule = "proptest-generated key lists drawn from nine task types with identical representation, hash and Debug text (newtypes A(u8), B(u8), Box<A>, Rc<A>, Arc<A>, Box<B>, and the zero-sized unit structs Z1, Z2, Box<Z1>, whose boxes even share an address) and four resource types RA(u8)/RB(u8)/RZ1/RZ2 with colliding ids, plus a task that reads RA(i), RB(i), RZ1, RZ2 back to back and a key type TR(i) that is a task and the resource it reads at once, x histories of top-down sessions, bottom-up builds (all changed resources reported) and changes to RA(i)/RB(i)/RZ1/RZ2; oracle: dyn KeyObj equality holds iff same concrete type and equal value, equal keys hash equally (all pairs of separately constructed keys); inside a Pie instance a root task requires the listed keys: every distinct (type, value) executes exactly once when new or when its own resource changed, never because a same-bytes key of another type changed, and every key gets its own output; changing RA(i) never changes RB(i); non-trivial = case with two keys of equal bytes and different types; distinct by case hash";
   let mut report = Report::new("C15", tier, seed, "exploration", rule);
   let known = Known::load("C15");
   super::prologue(&mut report, &known);
